@@ -86,7 +86,7 @@ def main():
             r = subprocess.run([os.path.join(root, 'check'), c, '--tier', a.tier], stdout=subprocess.PIPE, stderr=subprocess.STDOUT, text=True, env=env, cwd=root)
             viol = [l for l in r.stdout.splitlines() if l.startswith('VIOLATION')]
             fails = [l for l in r.stdout.splitlines() if l.startswith('failure in') or l.startswith('ill-formed')]
-            res['checks'][c] = {'rc': r.returncode, 'violations': len(viol), 'first': (fails[:2] + viol[:1]), 'wall_s': round(time.time() - t0, 1)}
+            res['checks'][c] = {'rc': r.returncode, 'violations': len(viol), 'first': (fails[:8] + viol[:1]), 'wall_s': round(time.time() - t0, 1)}
         print(json.dumps(res, indent=1))
         return 0
     finally:
